@@ -166,6 +166,14 @@ def directed():
             {'name': 'L2', 'start': 0.0, 'callers': [{'c': 3, 'k': 'a', 'at': 0.5}], 'life': 'full'}],
             'func': {'dur': 1.0, 'fail': fail}, 'mapping': 'dict',
             'strategy': {'kind': 'replay', 'prefix': []}})
+    # an invocation that raises from the call itself (plain function returning an awaitable), later callers
+    # on the same and on another loop
+    for fail, mp in itertools.product([[1], [1, 2]], ['dict', 'mm']):
+        out.append({'loops': [
+            {'name': 'L1', 'start': 0.0, 'callers': [{'c': 1, 'k': 'a'}, {'c': 2, 'k': 'a', 'at': 1.0}], 'life': 'full'},
+            {'name': 'L2', 'start': 0.0, 'callers': [{'c': 3, 'k': 'a', 'at': 0.5}, {'c': 4, 'k': 'a', 'at': 2.0}], 'life': 'full'}],
+            'func': {'dur': 0, 'fail': fail, 'form': 'plain'}, 'mapping': mp,
+            'strategy': {'kind': 'replay', 'prefix': []}})
     # results that are None / falsy are results like any other: concurrent callers plus a later one
     for ret, mp, dur in itertools.product(['none', 'falsy'], ['dict', 'mm', 'lru'], [0, 1.0]):
         out.append({'loops': [
@@ -232,6 +240,8 @@ def run(ctx):
                     sc['func']['ret'] = 'none'
                 elif r < 0.2:
                     sc['func']['ret'] = 'falsy'
+                if rng.random() < 0.2:     # a plain function returning an awaitable (may raise from the call itself)
+                    sc['func']['form'] = 'plain'
             out = ctx.run_and_validate(DRIVER, COMP, TRACE, scs, fam,
                                        nontrivial=nontrivial, known_match=known_match)
             if len(executed) < 4000:
